@@ -136,6 +136,51 @@ def applyL (t : RT) : List Ent → Heap → List Ent × Heap
       (r1.1 :: r2.1, r2.2)
 end
 
+/-! ### output geometry: the value tree -/
+
+/-- an entity as its output geometry: every cell replaced by the value it holds -/
+inductive VEnt where
+  | pt (v : V3)
+  | dir (v : V3)
+  | arr (vs : List V3)
+  | node (k : Kind) (attr : Rat) (ch : List VEnt)
+  deriving Repr
+
+mutual
+def resolveE (h : Heap) : Ent → VEnt
+  | .pt i => .pt (h.get i)
+  | .dir i => .dir (h.get i)
+  | .arr is => .arr (is.map h.get)
+  | .node k a ch => .node k a (resolveL h ch)
+def resolveL (h : Heap) : List Ent → List VEnt
+  | [] => []
+  | e :: es => resolveE h e :: resolveL h es
+end
+
+/-- `EdgeData.reverse()` on values -/
+def reverseV : VEnt → VEnt
+  | .node .angle a ch => .node .angle (-a) ch
+  | .node .spline a [.node .dcurve a2 [.arr vs]] => .node .spline a [.node .dcurve a2 [.arr vs.reverse]]
+  | e => e
+
+/-- `Operation.invert()` on values -/
+def invertOpV : List VEnt → List VEnt
+  | b :: t :: sides => t :: b :: sides.map reverseV
+  | ch => ch
+
+mutual
+/-- the transformation applied to the OUTPUT geometry: every point by the affine map, every axis direction by its
+    direction action, an operation turned inside out by a mirror, cached functions dropped -/
+def mapV (t : RT) : VEnt → VEnt
+  | .pt v => .pt (t.pt v)
+  | .dir v => .dir (t.dir v)
+  | .arr vs => .arr (vs.map t.pt)
+  | .node k a ch => .node k (touchAttr k a) (if t.isMirror && k == .op then invertOpV (mapVL t ch) else mapVL t ch)
+def mapVL (t : RT) : List VEnt → List VEnt
+  | [] => []
+  | e :: es => mapV t e :: mapVL t es
+end
+
 /-! ### centres (default origins) -/
 
 def vsum (ps : List V3) : V3 := ps.foldl (· + ·) V3.zero
@@ -143,80 +188,266 @@ def vsum (ps : List V3) : V3 := ps.foldl (· + ·) V3.zero
 /-- `np.average(points, axis=0)` -/
 def avg (ps : List V3) : V3 := V3.smul (1 / (ps.length : Rat)) (vsum ps)
 
-def ptOf (h : Heap) : Ent → Option V3
-  | .pt i => some (h.get i)
+def ptOfV : VEnt → Option V3
+  | .pt v => some v
   | _ => none
 
-def children : Ent → List Ent
+def childrenV : VEnt → List VEnt
   | .node _ _ ch => ch
   | _ => []
 
-def kindOf : Ent → Option Kind
+def kindOfV : VEnt → Option Kind
   | .node k _ _ => some k
   | _ => none
 
 /-- the four corner points of a face (its first four parts) -/
-def facePts (h : Heap) (e : Ent) : List V3 := ((children e).take 4).filterMap (ptOf h)
+def facePtsV (e : VEnt) : List V3 := ((childrenV e).take 4).filterMap ptOfV
 
-def faceCenter (h : Heap) (e : Ent) : V3 := avg (facePts h e)
+def faceCenterV (e : VEnt) : V3 := avg (facePtsV e)
 
 /-- `Operation.point_array`: bottom and top face points -/
-def opPts (h : Heap) (e : Ent) : List V3 :=
-  match children e with
-  | b :: t :: _ => facePts h b ++ facePts h t
+def opPtsV (e : VEnt) : List V3 :=
+  match childrenV e with
+  | b :: t :: _ => facePtsV b ++ facePtsV t
   | _ => []
 
-def opCenter (h : Heap) (e : Ent) : V3 := avg (opPts h e)
+def opCenterV (e : VEnt) : V3 := avg (opPtsV e)
 
-def opsOf (e : Ent) : List Ent := (children e).filter (fun c => kindOf c == some .op)
+def opsOfV (e : VEnt) : List VEnt := (childrenV e).filter (fun c => kindOfV c == some .op)
 
 /-- `Shape.center`: average of the operation centres -/
-def shapeCenter (h : Heap) (e : Ent) : V3 := avg ((opsOf e).map (opCenter h))
+def shapeCenterV (e : VEnt) : V3 := avg ((opsOfV e).map opCenterV)
+
+/-- the position of the part `fromEnd` places before the end of the part list (a `Point` the entity keeps) -/
+def partPointV (fromEnd : Nat) (ch : List VEnt) : Option V3 := ptOfV (ch.getD (ch.length - fromEnd) (.arr []))
 
 /-- `shape.center` of a member of an assembly: a sphere shape reports its own centre point (the last part but one),
     every other shape the average of its operation centres -/
-def shapeLikeCenter (h : Heap) (e : Ent) : Option V3 :=
-  match e with
-  | .node .sphere _ ch => (ch.getD (ch.length - 2) (.arr [])) |> ptOf h
-  | _ => some (shapeCenter h e)
+def shapeLikeCenterV : VEnt → Option V3
+  | .node .sphere _ ch => partPointV 2 ch
+  | e => some (shapeCenterV e)
 
-/-- centre of a curve entity; `oc` is the observed centre for kinds without a modelled rule -/
-def curveCenter (h : Heap) (oc : Option V3) (e : Ent) : Option V3 :=
-  match e with
-  | .node .dcurve _ [.arr is] => some (avg (is.map h.get))
-  | .node .lcurve _ [.pt a, .pt b] => some (V3.smul (1 / 2) (h.get a + h.get b))
-  | .node .circle _ (.pt o :: _) => some (h.get o)
+/-- the `center` rules of the source, one constructor per distinct piece of code -/
+inductive CRule where
+  | position | avgRows | zero | curveOf | avgDiscretize | lineMid | circleOrigin | facePoints | opPoints
+  | avgOpCenters | partPoint (attr : String) (fromEnd : Nat) | stackOps | avgShapeCenters | gridCorners
+  | firstFacePoint | firstFaceCenter | avgFaceCenters | observed
+  deriving DecidableEq, Repr
+
+/-- the expression of the source the rule transcribes (comprehension variable `x`) -/
+def CRule.src : CRule → String
+  | .position => "self.position"
+  | .avgRows => "np.average(self.points, axis=0)"
+  | .zero => "f.vector(0, 0, 0)"
+  | .curveOf => "self.curve.center"
+  | .avgDiscretize => "np.average(self.discretize(), axis=0)"
+  | .lineMid => "(self.point_1.position + self.point_2.position) / 2"
+  | .circleOrigin => "self.origin.position"
+  | .facePoints => "np.average(self.point_array, axis=0)"
+  | .opPoints => "np.average(self.point_array, axis=0)"
+  | .avgOpCenters => "np.average([x.center for x in self.operations], axis=0)"
+  | .partPoint attr _ => "self." ++ attr ++ ".position"
+  | .stackOps => "np.average([x.center for x in self.operations], axis=0)"
+  | .avgShapeCenters => "np.average([x.center for x in self.shapes], axis=0)"
+  | .gridCorners => "(self.faces[0].points[0].position + self.faces[-1].points[2].position) / 2"
+  | .firstFacePoint => "self.faces[0].points[0].position"
+  | .firstFaceCenter => "self.faces[0].center"
+  | .avgFaceCenters => "np.average([x.center for x in self.faces], axis=0)"
+  | .observed => "?"
+
+/-- which rule an entity of a kind runs -/
+def ruleOf : Kind → CRule
+  | .edge | .angle => .zero
+  | .spline | .oncurve => .curveOf
+  | .dcurve => .avgDiscretize
+  | .lcurve => .lineMid
+  | .circle => .circleOrigin
+  | .icurve => .observed
+  | .face => .facePoints
+  | .op => .opPoints
+  | .shape => .avgOpCenters
+  | .sphere => .partPoint "_center_point" 2
+  | .joint => .partPoint "_center_point" 1
+  | .stack => .stackOps
+  | .asm => .avgShapeCenters
+  | .grid => .gridCorners
+  | .firstpt => .firstFacePoint
+  | .face0 => .firstFaceCenter
+  | .sketchavg => .avgFaceCenters
+  | .other => .observed
+
+/-- evaluation of a rule on a node (`oc`: the observed centre for entities without a modelled rule);
+    `curveOf` is resolved by `centerV` -/
+def CRule.eval (oc : Option V3) (r : CRule) (e : VEnt) : Option V3 :=
+  let ch := childrenV e
+  match r with
+  | .position => ptOfV e
+  | .avgRows => match e with | .arr vs => some (avg vs) | _ => none
+  | .zero => some V3.zero
+  | .curveOf => none
+  | .avgDiscretize => match ch with | [.arr vs] => some (avg vs) | _ => oc
+  | .lineMid => match ch with | [.pt a, .pt b] => some (V3.smul (1 / 2) (a + b)) | _ => oc
+  | .circleOrigin => match ch with | .pt o :: _ => some o | _ => oc
+  | .facePoints => some (faceCenterV e)
+  | .opPoints => some (opCenterV e)
+  | .avgOpCenters => some (shapeCenterV e)
+  | .partPoint _ n => partPointV n ch
+  | .stackOps => some (avg ((ch.flatMap opsOfV).map opCenterV))
+  | .avgShapeCenters =>
+      if ch.all (fun c => (shapeLikeCenterV c).isSome) then some (avg (ch.filterMap shapeLikeCenterV)) else none
+  | .gridCorners =>
+      match ch.head?, ch.getLast? with
+      | some f0, some fl =>
+          match (facePtsV f0).head?, (facePtsV fl)[2]? with
+          | some a, some b => some (V3.smul (1 / 2) (a + b))
+          | _, _ => none
+      | _, _ => none
+  | .firstFacePoint => (ch.head?).bind (fun f0 => (facePtsV f0).head?)
+  | .firstFaceCenter => (ch.head?).map faceCenterV
+  | .avgFaceCenters => some (avg (ch.map faceCenterV))
+  | .observed => oc
+
+/-- centre of the curve an `OnCurve`/`Spline` edge holds -/
+def curveCenterV (oc : Option V3) (c : VEnt) : Option V3 :=
+  match c with
+  | .node k _ _ => (ruleOf k).eval oc c
   | _ => oc
 
-/-- `entity.center` -/
-def center (h : Heap) (oc : Option V3) (e : Ent) : Option V3 :=
+def CRule.isCurveOf : CRule → Bool
+  | .curveOf => true
+  | _ => false
+
+/-- `entity.center` on the output geometry -/
+def centerV (oc : Option V3) (e : VEnt) : Option V3 :=
   match e with
-  | .pt i => some (h.get i)
-  | .dir i => some (h.get i)
-  | .arr is => some (avg (is.map h.get))
-  | .node k _ ch =>
-    match k with
-    | .edge | .angle => some V3.zero
-    | .spline | .oncurve => (ch.head?).bind (curveCenter h oc)
-    | .dcurve | .lcurve | .circle | .icurve => curveCenter h oc e
-    | .face => some (faceCenter h e)
-    | .op => some (opCenter h e)
-    | .shape => some (shapeCenter h e)
-    | .sphere => (ch.getD (ch.length - 2) (.arr [])) |> ptOf h
-    | .joint => (ch.getD (ch.length - 1) (.arr [])) |> ptOf h
-    | .stack => some (avg ((ch.flatMap opsOf).map (opCenter h)))
-    | .asm => (ch.mapM (shapeLikeCenter h)).map avg
-    | .grid =>
-        match ch.head?, ch.getLast? with
-        | some f0, some fl =>
-            match (facePts h f0).head?, (facePts h fl)[2]? with
-            | some a, some b => some (V3.smul (1 / 2) (a + b))
-            | _, _ => none
-        | _, _ => none
-    | .firstpt => (ch.head?).bind (fun f0 => (facePts h f0).head?)
-    | .face0 => (ch.head?).map (faceCenter h)
-    | .sketchavg => some (avg (ch.map (faceCenter h)))
-    | .other => oc
+  | .pt v => some v
+  | .dir v => some v
+  | .arr vs => some (avg vs)
+  | .node k _ ch => if (ruleOf k).isCurveOf then (ch.head?).bind (curveCenterV oc) else (ruleOf k).eval oc e
+
+/-- `entity.center` -/
+def center (h : Heap) (oc : Option V3) (e : Ent) : Option V3 := centerV oc (resolveE h e)
+
+/-! ### the entity schema: what `parts` lists, class by class -/
+
+/-- what a slot of `parts` may hold -/
+inductive Cls where
+  | pt | dir | arr | edgeData | curve | face | op | shape | any
+  deriving DecidableEq, Repr
+
+def Cls.accepts : Cls → VEnt → Bool
+  | .pt, .pt _ => true
+  | .dir, .dir _ => true
+  | .arr, .arr _ => true
+  | .edgeData, .node k _ _ => k == .edge || k == .angle || k == .spline || k == .oncurve
+  | .curve, .node k _ _ => k == .circle || k == .lcurve || k == .dcurve || k == .icurve
+  | .face, .node k _ _ => k == .face
+  | .op, .node k _ _ => k == .op
+  | .shape, .node k _ _ => k == .shape || k == .sphere
+  | .any, _ => true
+  | _, _ => false
+
+/-- one entry of the list `parts` returns: `name` (an attribute of `self`), `star` (a whole list of parts), the kind
+    of entity it holds and how many (the model's own knowledge, validated on every real tree) -/
+structure Slot where
+  name : String
+  star : Bool
+  cls : Cls
+  lo : Nat
+  hi : Option Nat
+  deriving Repr
+
+def one (name : String) (c : Cls) : Slot := ⟨name, false, c, 1, some 1⟩
+def many (name : String) (c : Cls) (lo : Nat) (hi : Option Nat := none) : Slot := ⟨name, true, c, lo, hi⟩
+
+/-- a class that defines `parts`: the kinds the harness gives to its instances, and the slots -/
+structure Row where
+  cls : String
+  kinds : List Kind
+  slots : List Slot
+  deriving Repr
+
+/-- every class of `classy_blocks.base` / `classy_blocks.construct` whose `parts` returns a list, by class name -/
+def schema : List Row := [
+  ⟨"Angle", [.angle], [one "axis" .dir]⟩,
+  ⟨"Arc", [.edge], [one "point" .pt]⟩,
+  ⟨"Array", [], [one "self" .any]⟩,
+  ⟨"Assembly", [.asm], [many "shapes" .shape 1]⟩,
+  ⟨"CircleCurve", [.circle], [one "origin" .pt, one "rim" .pt, one "_normal" .dir]⟩,
+  ⟨"DiscreteCurve", [.dcurve], [one "array" .arr]⟩,
+  ⟨"EdgeData", [.edge], []⟩,
+  ⟨"EighthSphere", [.sphere], [many "operations" .op 1, one "_center_point" .pt, one "_radius_point" .pt]⟩,
+  ⟨"Face", [.face], [many "points" .pt 4 (some 4), many "edges" .edgeData 4 (some 4)]⟩,
+  ⟨"InterpolatedCurveBase", [.icurve], [one "array" .arr]⟩,
+  ⟨"JointBase", [.joint], [many "shapes" .shape 1, one "_center_point" .pt]⟩,
+  ⟨"LineCurve", [.lcurve], [one "point_1" .pt, one "point_2" .pt]⟩,
+  ⟨"OnCurve", [.oncurve], [one "curve" .curve]⟩,
+  ⟨"Operation", [.op], [one "bottom_face" .face, one "top_face" .face, many "side_edges" .edgeData 4 (some 4)]⟩,
+  ⟨"Origin", [.edge], [one "origin" .pt]⟩,
+  ⟨"Point", [], [one "self" .any]⟩,
+  ⟨"QuarterSplineRing", [.other], [many "super().parts" .face 1, one "_center" .pt]⟩,
+  ⟨"Shape", [.shape], [many "operations" .op 1]⟩,
+  ⟨"Sketch", [.grid, .firstpt, .face0, .sketchavg, .other], [many "faces" .face 1]⟩,
+  ⟨"Spline", [.spline], [one "curve" .curve]⟩,
+  ⟨"Stack", [.stack], [many "shapes" .shape 1]⟩]
+
+def Slot.render (s : Slot) : String := (if s.star then "*" else "") ++ s.name
+
+def Row.render (r : Row) : String × List String := (r.cls, r.slots.map Slot.render)
+
+/-- the part list against the slots: a starred slot takes the longest admissible prefix -/
+def matchSlots : List Slot → List VEnt → Bool
+  | [], es => es.isEmpty
+  | s :: ss, es =>
+      if s.star then
+        let n := (es.takeWhile s.cls.accepts).length
+        decide (s.lo ≤ n) && (match s.hi with | some m => decide (n ≤ m) | none => true) &&
+          matchSlots ss (es.dropWhile s.cls.accepts)
+      else
+        match es with
+        | e :: rest => s.cls.accepts e && matchSlots ss rest
+        | [] => false
+
+/-- the classes an entity of kind `k` may belong to -/
+def rowsFor (k : Kind) : List Row := schema.filter (fun r => r.kinds.contains k)
+
+/-- the parts of a node of kind `k` fit a class of that kind (`other`: no class known to the model) -/
+def wfNode (k : Kind) (ch : List VEnt) : Bool :=
+  k == .other || (rowsFor k).any (fun r => matchSlots r.slots ch)
+
+mutual
+/-- the whole tree follows the schema; point arrays are not empty -/
+def wfV : VEnt → Bool
+  | .pt _ => true
+  | .dir _ => true
+  | .arr vs => !vs.isEmpty
+  | .node k _ ch => wfNode k ch && wfVL ch
+def wfVL : List VEnt → Bool
+  | [] => true
+  | e :: es => wfV e && wfVL es
+end
+
+/-- classes whose `center` is transcribed, with the rule -/
+def centerRows : List (String × CRule) := [
+  ("Annulus", ruleOf .sketchavg), ("Array", .avgRows), ("Assembly", ruleOf .asm), ("CircleCurve", ruleOf .circle),
+  ("DiscreteCurve", ruleOf .dcurve), ("DiskBase", ruleOf .firstpt), ("EdgeData", ruleOf .edge),
+  ("EighthSphere", ruleOf .sphere), ("Face", ruleOf .face), ("Grid", ruleOf .grid), ("JointBase", ruleOf .joint),
+  ("LineCurve", ruleOf .lcurve), ("MappedSketch", ruleOf .sketchavg), ("OnCurve", ruleOf .oncurve),
+  ("OneCoreDisk", ruleOf .face0), ("Operation", ruleOf .op), ("Point", .position), ("Shape", ruleOf .shape),
+  ("Spline", ruleOf .spline), ("Stack", ruleOf .stack), ("WrappedDisk", ruleOf .face0)]
+
+/-- classes whose `center` is not transcribed (abstract, or the observed value is used) -/
+def observedCenters : List String := ["ElementBase", "Oval", "PointCurveBase", "QuarterSplineRing", "Sketch", "SplineRound"]
+
+/-- a real object of class row `P` (the class whose `parts` runs) and centre class `C` (the class whose `center`
+    runs) may carry kind `k` -/
+def kindOK (k : Kind) (P C : String) : Bool :=
+  schema.any (fun r => r.cls == P && r.kinds.contains k) &&
+    (centerRows.any (fun r => r.1 == C && r.2 == ruleOf k) || (ruleOf k == .observed && observedCenters.contains C))
+
+/-- one node of a real tree against the schema row of its own class -/
+def nodeOK (k : Kind) (P C : String) (ch : List VEnt) : Bool :=
+  kindOK k P C && schema.any (fun r => r.cls == P && matchSlots r.slots ch)
 
 /-! ### method calls, transformation lists, copies -/
 
@@ -229,13 +460,41 @@ def isLeaf : Ent → Bool
 def defaultOrigin (viaMethod : Bool) (h : Heap) (oc : Option V3) (e : Ent) : Option V3 :=
   if viaMethod && isLeaf e then some V3.zero else center h oc e
 
-def Tr.resolveWith (c : Option V3) : Tr → Option RT
+/-- what an origin that is left out becomes -/
+inductive Dflt where
+  | noOrigin | center | zero
+  deriving DecidableEq, Repr
+
+/-- as the source spells it (`ElementBase.rotate/scale/mirror`: `self.center`; `transform`: the local `center`) -/
+def Dflt.src (viaMethod : Bool) : Dflt → String
+  | .noOrigin => "-"
+  | .center => if viaMethod then "self.center" else "center"
+  | .zero => "[0, 0, 0]"
+
+def Tr.dflt : Tr → Dflt
+  | .translate _ => .noOrigin
+  | .rotate _ _ _ => .center
+  | .scale _ _ => .center
+  | .mirror _ _ => .zero
+
+/-- the name of the method that is called on every part / of the `transforms` class -/
+def Tr.names : Tr → String × String
+  | .translate _ => ("translate", "Translation")
+  | .rotate _ _ _ => ("rotate", "Rotation")
+  | .scale _ _ => ("scale", "Scaling")
+  | .mirror _ _ => ("mirror", "Mirror")
+
+def Dflt.pick (c : Option V3) : Dflt → Option V3
+  | .noOrigin => none
+  | .center => c
+  | .zero => some V3.zero
+
+def Tr.resolveWith (c : Option V3) (t : Tr) : Option RT :=
+  match t with
   | .translate d => some (.translate d)
-  | .rotate w a (some o) => some (.rotate w a o)
-  | .rotate w a none => c.map (fun o => .rotate w a o)
-  | .scale r (some o) => some (.scale r o)
-  | .scale r none => c.map (fun o => .scale r o)
-  | .mirror n o => some (.mirror n (o.getD V3.zero))
+  | .rotate w a o => (o <|> t.dflt.pick c).map (fun o => .rotate w a o)
+  | .scale r o => (o <|> t.dflt.pick c).map (fun o => .scale r o)
+  | .mirror n o => (o <|> t.dflt.pick c).map (fun o => .mirror n o)
 
 /-- `e.translate(…)` / `e.rotate(…)` / `e.scale(…)` / `e.mirror(…)` -/
 def method (t : Tr) (oc : Option V3) (s : Ent × Heap) : Option (Ent × Heap) := do
@@ -254,6 +513,28 @@ def transformStep (t : Tr) (oc : Option V3) (s : Ent × Heap) : Option (Ent × H
 
 def runSteps (viaMethod : Bool) (ts : List (Tr × Option V3)) (s : Ent × Heap) : Option (Ent × Heap) :=
   ts.foldlM (fun s t => if viaMethod then method t.1 t.2 s else transformStep t.1 t.2 s) s
+
+/-! ### the same on the output geometry (no heap): what "transforming the output" means for a sequence -/
+
+def isLeafV : VEnt → Bool
+  | .node _ _ _ => false
+  | _ => true
+
+def defaultOriginV (viaMethod : Bool) (oc : Option V3) (v : VEnt) : Option V3 :=
+  if viaMethod && isLeafV v then some V3.zero else centerV oc v
+
+def methodV (t : Tr) (oc : Option V3) (v : VEnt) : Option VEnt := do
+  let rt ← t.resolveWith (defaultOriginV true oc v)
+  some (mapV rt v)
+
+def transformStepV (t : Tr) (oc : Option V3) (v : VEnt) : Option VEnt := do
+  let rt ← t.resolveWith (defaultOriginV false oc v)
+  match v with
+  | .node k a ch => some (.node k (touchAttr k a) (mapVL rt ch))
+  | leaf => some (mapV rt leaf)
+
+def runStepsV (viaMethod : Bool) (ts : List (Tr × Option V3)) (v : VEnt) : Option VEnt :=
+  ts.foldlM (fun v t => if viaMethod then methodV t.1 t.2 v else transformStepV t.1 t.2 v) v
 
 /-- state of a deep copy: memo (old cell ↦ new cell) and the growing heap -/
 structure CopySt where
@@ -452,10 +733,40 @@ def handlePrim (args : List String) : Option String :=
       some ("ok " ++ " ".intercalate (ps.map (fun p => (rt.pt p).toStr)))
   | _ => none
 
+/-- token of a real tree for the schema check: leaves as in `c09.run`, nodes `N:<kind>:<attr>:<n>:<P>:<C>` with the
+    class `P` whose `parts` runs and the class `C` whose `center` runs -/
+def wfTok (st : List VEnt × Option String) (tok : String) : Option (List VEnt × Option String) :=
+  if tok.startsWith "N:" then
+    match tok.splitOn ":" with
+    | [_, k, a, n, P, C] => do
+        let k ← kindOfStr k
+        let a ← parseRat? a
+        let n ← parseNat? n
+        if st.1.length < n then none else
+        let ch := (st.1.take n).reverse
+        let bad := if nodeOK k P C ch then st.2 else st.2 <|> some s!"{P}:{C}:{k.str}:{n}"
+        some (.node k a ch :: st.1.drop n, bad)
+    | _ => none
+  else if tok.startsWith "P" then some (.pt V3.zero :: st.1, st.2)
+  else if tok.startsWith "D" then some (.dir V3.zero :: st.1, st.2)
+  else if tok.startsWith "A" then
+    let n := (((tok.drop 1).toString.splitOn ";").filter (· ≠ "")).length
+    some (.arr (List.replicate n V3.zero) :: st.1, st.2)
+  else none
+
+/-- `c09.wf <tok…>` → `ok` when every node fits the schema row of its class and the tree satisfies `wfV`
+    (the hypothesis of the centre theorems), else the first offending node -/
+def handleWf (args : List String) : Option String :=
+  match args.foldlM wfTok ([], none) with
+  | some ([e], none) => some (if wfV e then "ok" else "not-wf")
+  | some ([_], some bad) => some ("bad " ++ bad)
+  | _ => none
+
 def handle (op : String) (args : List String) : Option String :=
   match op with
   | "c09.run" => handleRun args
   | "c09.prim" => handlePrim args
+  | "c09.wf" => handleWf args
   | _ => none
 
 end CBV.C09
